@@ -23,3 +23,5 @@ more.register(globals(), {"C03"}, ["branch_retry_kinds", "late_nested"], {"branc
 globals()["nested_inner_catch_retry_task"]._vf.tiers = ("thorough",)   # 1665 schedules: quick tier runs it under C06 only
 
 more.register(globals(), {"C03"}, ["map_in_map"], {"map_in_map": [("_o%d" % k, "omc == %d" % k) for k in range(3)]})
+
+more.register(globals(), {"C03"}, ["fanout_loop", "map_retry_batches"])
